@@ -996,3 +996,51 @@ Proof.
     apply Nat.leb_gt in E. lia.
   - unfold is_nl, code. rewrite !uc_code_single; [rewrite nthb0_hd_chr; reflexivity| |]; rewrite ?nthb0_hd_chr, nthb_skipn, Nat.add_0_r; exact Hc.
 Qed.
+
+(* ... and for every line that is valid UTF-8 (the encoding of a list of scalar values) *)
+From NV Require Import UcSpec UcProps UcSegProps.
+Definition nl_ok_at (s : bytes) (q : nat) : Prop :=
+  (q + uc_len_b (nthb s q) - 1 <= length s)%nat /\ (uc_code (skipn q s) =? 10)%N = is_nl (hd_chr (skipn q s)).
+Lemma nl_ok_at_single s q : (q <= length s)%nat -> (nthb s q < 192)%N -> nl_ok_at s q.
+Proof.
+  intros Hq Hc. split.
+  - pose proof (nolead_len (nthb s q) ltac:(lia)) as E. destruct (N.ltb_spec (nthb s q) 192); [|lia]. cbn [andb] in E.
+    apply Nat.leb_gt in E. lia.
+  - unfold is_nl, code. rewrite !uc_code_single; [rewrite nthb0_hd_chr; reflexivity| |]; rewrite ?nthb0_hd_chr, nthb_skipn, Nat.add_0_r; exact Hc.
+Qed.
+Lemma cont_lt192 : forall c, (c < 256)%N -> (negb (is_cont c) || (c <? 192)%N) = true.
+Proof. byte_fact. Qed.
+Lemma nthb_app_r (s r : bytes) i : (length s <= i)%nat -> nthb (s ++ r) i = nthb r (i - length s).
+Proof. intro H. unfold nthb. apply app_nth2. lia. Qed.
+Lemma hd_chr_ne t : t <> [] -> hd_chr t = firstn (Nat.max 1 (uc_next t)) t.
+Proof. destruct t; [congruence|reflexivity]. Qed.
+Lemma nl_ok_chars cs : Forall scalar cs -> forall q, (q <= length (chars cs))%nat -> nl_ok_at (chars cs) q.
+Proof.
+  induction 1 as [|c cs Hc Hcs IH]; intros q Hq.
+  - apply nl_ok_at_single; [exact Hq|]. cbn in Hq. destruct q; [reflexivity|lia].
+  - rewrite chars_cons in *. rewrite app_length in Hq.
+    destruct (encode_decomp c Hc) as (l & t & E & Hl & Ht & Hl0 & _ & _ & Ht256).
+    destruct (Nat.lt_ge_cases q (length (encode c))) as [L|L].
+    + destruct q as [|q].
+      * (* a character start *)
+        destruct (uc_len_code_encode c (chars cs) Hc) as [E1 E2]. destruct (uc_len_code_encode c [] Hc) as [_ E3]. rewrite app_nil_r in E3.
+        pose proof (uc_next_encode c (chars cs) Hc (chars_hd_noncont cs Hcs)) as En. pose proof (encode_nonempty c Hc) as Hne.
+        split.
+        -- unfold uc_len in E1. replace (nthb (encode c ++ chars cs) 0) with (hd0 (encode c ++ chars cs)) by (destruct (encode c ++ chars cs); reflexivity).
+           rewrite E1, app_length. lia.
+        -- cbn [skipn]. rewrite E2. rewrite hd_chr_ne by (rewrite E; discriminate).
+           rewrite En. replace (Nat.max 1 (length (encode c))) with (length (encode c)) by lia.
+           rewrite firstn_app, Nat.sub_diag, firstn_all. cbn [firstn]. rewrite app_nil_r. unfold is_nl, code. rewrite E3. reflexivity.
+      * (* inside a character: a continuation byte *)
+        apply nl_ok_at_single; [rewrite app_length; lia|]. rewrite nthb_app_l by exact L. rewrite E in *. cbn [length] in L. unfold nthb. cbn [nth].
+        assert (Hin : In (nth q t 0%N) t) by (apply nth_In; lia).
+        unfold all_cont in Ht. rewrite Forall_forall in Ht, Ht256. specialize (Ht _ Hin). specialize (Ht256 _ Hin).
+        pose proof (cont_lt192 (nth q t 0%N) ltac:(lia)) as Hx. rewrite Ht in Hx. cbn in Hx. apply N.ltb_lt. exact Hx.
+    + specialize (IH (q - length (encode c))%nat ltac:(lia)). destruct IH as [I1 I2]. split.
+      * rewrite nthb_app_r by exact L. rewrite app_length. lia.
+      * assert (Hsk : skipn q (encode c ++ chars cs) = skipn (q - length (encode c)) (chars cs))
+          by (rewrite skipn_app, skipn_all2 by lia; reflexivity).
+        rewrite Hsk. exact I2.
+Qed.
+Theorem nl_ok_valid s : valid s -> nl_ok s.
+Proof. intros (cs & Hcs & ->) q Hq. apply (nl_ok_chars cs Hcs q Hq). Qed.
